@@ -110,6 +110,26 @@ func (fs *FS) Writes() []Op {
 	return w
 }
 
+// isDir reports whether path is a directory: listed in Dirs, or an
+// ancestor of some stored file (on a real filesystem the ancestors of a
+// file necessarily are directories, so reading or writing them as files
+// fails with EISDIR and has no effect).
+func (fs *FS) isDir(path string) bool {
+	if fs.Dirs[path] {
+		return true
+	}
+	if path == "/" {
+		return true
+	}
+	pre := strings.TrimSuffix(path, "/") + "/"
+	for k := range fs.Files {
+		if strings.HasPrefix(k, pre) {
+			return true
+		}
+	}
+	return false
+}
+
 func (fs *FS) fault(kind, path string, data []byte) *Fault {
 	if fs.Hook == nil {
 		return nil
@@ -127,7 +147,7 @@ func (fs *FS) ReadFile(path string) ([]byte, error) {
 		fs.Log = append(fs.Log, op)
 		return nil, f.Err
 	}
-	if fs.Dirs[path] {
+	if fs.isDir(path) {
 		err := &os.PathError{Op: "read", Path: path, Err: syscall.EISDIR}
 		op.Err = err.Error()
 		fs.Log = append(fs.Log, op)
@@ -193,7 +213,7 @@ func (fs *FS) WriteFile(path string, data []byte) error {
 		fs.Log = append(fs.Log, op)
 		return f.Err
 	}
-	if fs.Dirs[path] {
+	if fs.isDir(path) {
 		err := &os.PathError{Op: "open", Path: path, Err: syscall.EISDIR}
 		op.Err = err.Error()
 		fs.Log = append(fs.Log, op)
